@@ -30,6 +30,18 @@ CLAIMED = {
         technique="complete enumeration of all 2^24 addresses with a hash-set injectivity oracle and an independent block table",
         text="Complete enumeration of all 2^24 addresses through the real tail() (and aircraft_information); registrations are collected in a hash map for injectivity and matched against the address-block table that the harness reads from patterns.json itself. thorough adds all other u32 arguments for totality.",
         note="Trusted: patterns.json as the block table (the property names it); country names are not compared (categories may override them); blocks without a prefix pattern are counted only."),
+    "C11": dict(engine=E2, design="4/C11",
+        technique="complete enumeration of record kinds x addresses x filter shapes through the real Filters::is_in against the record's own JSON",
+        text="Complete enumeration of a finite case space on the real code: every address-carrying downlink format (DF0/4/5/11 with and without interrogator id/16/17 and DF18 with five control fields x six message kinds/20/21 with and without a register) x 8 (thorough 32) addresses x decoded/undecoded x 7 df-filter shapes x 9 aircraft-filter shapes (absent, empty, shown, other, the transmitted parity field, neighbours of the shown address). Filters::is_in is compared with membership of the df and icao24 members of serde_json::to_value(&record). The filter is a pure function of (DF arm, address field, two lists), so covering every arm with every list shape decides it.",
+        note="Trusted: frames come from the harness's own bit-level builder (checked: the decoder must accept each); list order/duplicates are not part of the property."),
+    "C16": dict(engine=E2, design="4/C16",
+        technique="exhaustive enumeration of a specification grammar and of all short strings through the real parsers; serial equality across forms and processes",
+        text="Bounded exhaustive enumeration through the real Source::from_str / Position::from_str / Source::serial: the product scheme x host x port x path x separator x reference (49k strings quick, 115k thorough), every string up to length 4 (thorough 5) over a 12-symbol alphabet of URL/regex metacharacters, every well-formed endpoint (4 schemes x 6 hosts x 6 ports x paths x 9 references) compared with the expected endpoint, reference position and with the serial of each documented TOML table form, every airport ICAO (thorough: and IATA) code of airports.json, and the digest of all serials recomputed in two further processes. Totality is judged by catch_unwind with the panic site recorded.",
+        note="Trusted: 'well-formed' means an explicit scheme with host and port (or the documented ':port' and 'rtlsdr:' forms); scheme-less 'host:port' is answered with Err by the parser and is only enumerated for totality; websocket table URLs are written with explicit port and path."),
+    "C17": dict(engine=E2, design="4/C17",
+        technique="explicit-state breadth-first search of the UI state graph through the real update() handler, invariants on every transition",
+        text="Explicit-state model checking on the implementation: BFS over (rows, selected, quit, search mode, sort key, sort order, query length class, width) for 0..4 (thorough 0..6) rows from main()'s initial state and from every consistent non-initial state, applying 37 events (all documented keys, undocumented keys, ticks, error) through the real update() on a real tokio MutexGuard<Jet1090> inside catch_unwind; every transition is judged (no panic, selection in range, each flag changes only on its documented key outside/inside search mode). The reachable graph is finite and explored completely; an un-abstracted DFS of all event sequences to depth 3 (thorough 5) cross-checks the query abstraction.",
+        note="Trusted: the query-length abstraction (update() never branches on the query content; cross-checked); the table size is fixed during a key sequence, as the property states; rendering (ratatui) is outside this check."),
     "C18": dict(engine=E1, design="4/C18",
         technique="exhaustive enumeration of every nanosecond of the critical intervals and every Unix second, i128 oracle",
         text="Exhaustive bounded enumeration on the real functions: every nanosecond of [0, 18.001 s), every nanosecond around each day boundary, the whole week on a grid, every Unix second 1980..2100 (thorough) against an i128 oracle. The function is piecewise linear with breakpoints only at the enumerated boundaries, so dense coverage of each boundary plus a grid decides it.",
